@@ -268,6 +268,41 @@ func (e *Engine) SetLongest(longest bool) {
 	}
 }
 
+// The pv* helpers run a search on the PikeVM of a pooled SearchState. The engine-level
+// e.pikevm is ONE simulator (queues, sparse sets, slot tables) for all goroutines and is
+// documented as not thread-safe; search paths that fell back to it raced with each other
+// and could return another goroutine's result. It now only serves as the prototype the
+// per-state instances are configured from.
+func (e *Engine) pvSearch(haystack []byte) (int, int, bool) {
+	state := e.getSearchState()
+	defer e.putSearchState(state)
+	return state.pikevm.Search(haystack)
+}
+
+func (e *Engine) pvSearchAt(haystack []byte, at int) (int, int, bool) {
+	state := e.getSearchState()
+	defer e.putSearchState(state)
+	return state.pikevm.SearchAt(haystack, at)
+}
+
+func (e *Engine) pvIsMatch(haystack []byte) bool {
+	state := e.getSearchState()
+	defer e.putSearchState(state)
+	return state.pikevm.IsMatch(haystack)
+}
+
+func (e *Engine) pvSearchWithSlotTable(haystack []byte, mode nfa.SearchMode) (int, int, bool) {
+	state := e.getSearchState()
+	defer e.putSearchState(state)
+	return state.pikevm.SearchWithSlotTable(haystack, mode)
+}
+
+func (e *Engine) pvSearchWithSlotTableAt(haystack []byte, at int, mode nfa.SearchMode) (int, int, bool) {
+	state := e.getSearchState()
+	defer e.putSearchState(state)
+	return state.pikevm.SearchWithSlotTableAt(haystack, at, mode)
+}
+
 // getSearchState retrieves a SearchState, trying the local GC-proof cache first.
 // Caller must call putSearchState when done.
 // The returned state contains its own PikeVM instance for thread-safe concurrent use.
